@@ -38,6 +38,8 @@ def main(argv=None):
         print("no check for %s: %s" % (prop, e))
         return 2
     import logging
+    import warnings
+    warnings.simplefilter("ignore")     # un-awaited consumer coroutines are part of what is exercised
     logging.disable(logging.CRITICAL)   # streamz logs every user-function exception; they are expected here
     ctx = common.Ctx(prop, args.tier, seed, level=getattr(mod, "LEVEL", "proof"))
     try:
